@@ -26,7 +26,8 @@ class StepLoop(asyncio.SelectorEventLoop):
 
     def _make_task(self, loop, coro, **kwargs):
         task = asyncio.Task(coro, loop=loop, **kwargs)
-        self.all_tasks.append(task)
+        if not getattr(self, 'untracked', False):
+            self.all_tasks.append(task)  # (a task created while `untracked` is set is held by nobody, like in asyncio)
         return task
 
     # -- observation -------------------------------------------------------------------------
